@@ -220,7 +220,53 @@ class Check:
             lines.append('# trailing diagnostic')
         return lines
 
+    # ---- exhaustive part of the thorough tier: every sequence of <= 4 lines over a 16-form alphabet,
+    #      each run through the simulator as the complete output of a producer that exits 0
+    ENUM_ALPHABET = ['TAP version 13', '1..2', '1..0 # SKIP', 'ok', 'ok 1', 'ok 2', 'not ok', 'not ok 2', 'ok # SKIP', 'not ok # TODO',
+                     'ok 3 # TODO', '# diag', '  ---', '  ...', 'Bail out!', 'junk']
+    ENUM_MAXLEN = 4
+    ENUM_PER_SCENARIO = 8
+
+    @classmethod
+    def n_enum(cls) -> int:
+        a = len(cls.ENUM_ALPHABET)
+        return sum(a ** k for k in range(1, cls.ENUM_MAXLEN + 1))
+
+    @classmethod
+    def enum_stream(cls, k: int) -> T.List[str]:
+        a = len(cls.ENUM_ALPHABET)
+        n = 1
+        while k >= a ** n:
+            k -= a ** n
+            n += 1
+        out = []
+        for _ in range(n):
+            out.append(cls.ENUM_ALPHABET[k % a])
+            k //= a
+        return out
+
+    def enum_scenario(self, index: int) -> T.Dict[str, T.Any]:
+        tests = []
+        scripts: T.Dict[str, T.Any] = {}
+        for j in range(self.ENUM_PER_SCENARIO):
+            k = index * self.ENUM_PER_SCENARIO + j
+            if k >= self.n_enum():
+                break
+            data = ('\n'.join(self.enum_stream(k)) + '\n').encode()
+            tid = f't{j}'
+            tests.append({'id': tid, 'name': f'n{j}', 'proj': C.TOP, 'parallel': True, 'priority': 0, 'timeout': 30, 'should_fail': False, 'suites': [],
+                          'protocol': 'tap', 'env': [], 'mode': 'tap'})
+            scripts[tid] = {'dur': 0.0, 'code': 0, 'out': [[0.0, 1, base64.b64encode(data).decode()]], 'b64': True, 'term': 'die', 'term_delay': 0.0,
+                            'kill_delay': 0.0, 'data': base64.b64encode(data).decode(), 'cut': None}
+        run = {'j': 4, 'verbose': False, 'errorlogs': False, 'nosplit': False, 'scripts': scripts,
+               'sim': {'tie_seed': 1, 'tie_random': False, 'batch': False, 'eager': False, 'coalesce': False, 'rand_seed': 1}}
+        return {'kind': 'c18', 'tests': tests, 'run': run, 'enumerated': True}
+
     def generate(self, rng: random.Random, tier: str, index: int) -> T.Dict[str, T.Any]:
+        if tier != 'quick':
+            n_sc = (self.n_enum() + self.ENUM_PER_SCENARIO - 1) // self.ENUM_PER_SCENARIO
+            if index < n_sc:
+                return self.enum_scenario(index)
         sw = {
             'max_tests': rng.choice([2, 4, 8, 20 if tier != 'quick' else 8]),
             'noise': rng.choice([0.0, 0.3, 1.0, 2.5]),
